@@ -103,12 +103,29 @@ OBS_NAMES = {1: 'point(t) vs Bernstein sum', 2: 'point(t) vs model', 3: 'poly() 
              7: 'derivative(t,0) must raise ValueError', 8: 'poly2bez(poly()) returns the control points'}
 
 
-def observe(pts, t, t2):
+FIELDS = {2: ('start', 'end'), 3: ('start', 'control', 'end'), 4: ('start', 'control1', 'control2', 'end')}
+
+
+def observe(pts, t, t2, reassign_from=None):
     import numpy as np
     from svgpathtools import Line, QuadraticBezier, CubicBezier, poly2bez
     from svgpathtools.path import bpoints2bezier
     cls = {2: Line, 3: QuadraticBezier, 4: CubicBezier}[len(pts)]
-    seg = cls(*pts)
+    if reassign_from is not None:
+        # build the segment with OTHER control points, exercise every accessor (so that any
+        # memoised value is filled), then reassign the control points in place: the object must
+        # now answer as the Bezier curve of its CURRENT control points
+        seg = cls(*reassign_from)
+        seg.poly(); seg.poly(return_coeffs=True); seg.points([0.25, 0.75]); seg.point(0.25)
+        seg.derivative(0.25); seg.bpoints()
+        try:
+            seg.length(); seg.bbox()
+        except Exception:
+            pass
+        for name, z in zip(FIELDS[len(pts)], pts):
+            setattr(seg, name, z)
+    else:
+        seg = cls(*pts)
     seg2 = bpoints2bezier(list(pts))
     if type(seg2) is not cls or seg2 != seg:
         raise AssertionError('bpoints2bezier does not rebuild the segment')
@@ -149,7 +166,8 @@ def run(rep, tier, seed, replay=None):
             import json
             r = json.load(open(replay))['replay']
             pts = [complex(float.fromhex(a), float.fromhex(b)) for a, b in r['points']]
-            todo = [(pts, float.fromhex(r['t']), float.fromhex(r['t2']), 'replay')]
+            rf = [complex(float.fromhex(a), float.fromhex(b)) for a, b in r['reassigned_from']] if r.get('reassigned_from') else None
+            todo = [(pts, float.fromhex(r['t']), float.fromhex(r['t2']), 'replay', rf)]
         else:
             todo = []
             for i in range(n):
@@ -158,19 +176,26 @@ def run(rep, tier, seed, replay=None):
                 if k == 2 and pts[0] == pts[1]:
                     # a zero-length Line is outside the domain (derivative asserts start != end)
                     pts = [pts[0], pts[0] + complex(1, -2)]
-                todo.append((pts, gen_t(rng), gen_t(rng), mode))
-        for pts, t, t2, mode in todo:
+                rf = None
+                if i % 3 == 2:      # every third case: control points reassigned in place after use
+                    rf, _ = gen_points(rng, k)
+                    if k == 2 and rf[0] == rf[1]:
+                        rf = [rf[0], rf[0] + complex(2, 1)]
+                    mode = mode + '+reassigned'
+                todo.append((pts, gen_t(rng), gen_t(rng), mode, rf))
+        for pts, t, t2, mode, rf in todo:
             modes[mode] = modes.get(mode, 0) + 1
             try:
-                o = observe(pts, t, t2)
+                o = observe(pts, t, t2, rf)
             except Exception as e:
                 rep.violation('implementation raised %s on a Bezier segment' % type(e).__name__,
                               {'kind': 'exception', 'points': [common.chex(p) for p in pts],
-                               't': common.fhex(t), 't2': common.fhex(t2), 'error': repr(e)},
+                               't': common.fhex(t), 't2': common.fhex(t2), 'error': repr(e),
+                               'reassigned_from': [common.chex(p) for p in rf] if rf else None},
                               key='impl-exception')
                 continue
             cases.append(case_term(pts, t, t2, o))
-            meta.append((pts, t, t2, o))
+            meta.append((pts, t, t2, o, rf))
             if len(set(pts)) > 1 and t not in (0.0, 1.0):
                 nontrivial.add((tuple(pts), t))
         fails, errors = common.run_cases(tmp, '', 'casety', OKDEF, cases, shard=200)
@@ -186,13 +211,14 @@ def run(rep, tier, seed, replay=None):
         rep.cov['input_distribution'] = modes
         rep.cov['samples'] = [{'points': [str(p) for p in m[0]], 't': m[1], 'point': str(m[3]['pt'])} for m in meta[:3]]
         for idx, code in fails:
-            pts, t, t2, o = meta[idx]
+            pts, t, t2, o, rf = meta[idx]
             rep.violation('C03: %s disagrees with the Bernstein curve beyond rounding' % OBS_NAMES.get(code, code),
                           {'kind': 'correspondence', 'observation': OBS_NAMES.get(code, str(code)),
                            'points': [common.chex(p) for p in pts], 't': common.fhex(t), 't2': common.fhex(t2),
                            'observed': {k: str(v) for k, v in o.items()},
+                           'reassigned_from': [common.chex(p) for p in rf] if rf else None,
                            'how': './check C03 --replay <this file>'},
-                          key='corr-%d' % code)
+                          key=('corr-%d' % code) + ('-after-reassign' if rf else ''))
         if info['agree_failed'] and not rep.violations:
             rep.violation('agreement lemma(s) %s no longer check: generated code differs from the model'
                           % info['agree_failed'],
